@@ -43,6 +43,8 @@ SPEC = dict(
          "lines, non-trivial = all. tags: <verb>-<family>; families ivfs[-inf]-d1..d3 (interval / finite-set trees of "
          "depth <= 3), ivfs-topo (with boundary/interior/closure), num-union (unions with number sets at any depth), "
          "num-d1 (one operation on atoms including number sets: creates Complement / Intersection objects), num-topo, "
+         "nary-in<k>[x] / nary-un<k>[x] (one n-ary free-function call with k = 3..5 operands, finite sets over a shared "
+         "value pool, x = one interval / Integers / Reals among them), "
          "fixed-* (the minimal inputs of the confirmed defects). Oracle per expression node: reference membership "
          "vector over all break points, neighbouring integers and midpoints vs (a) the structure of the result and "
          "(b) contains() on the result.",
